@@ -32,6 +32,27 @@ func LibGoroutines() []string {
 	return out
 }
 
+// HarnessGoroutines returns the stacks of the goroutines that are inside harness code (for the report of a scenario
+// that did not finish: which side was waiting for which).
+func HarnessGoroutines() []string {
+	buf := make([]byte, 1<<20)
+	for {
+		n := runtime.Stack(buf, true)
+		if n < len(buf) {
+			buf = buf[:n]
+			break
+		}
+		buf = make([]byte, 2*len(buf))
+	}
+	var out []string
+	for _, g := range strings.Split(string(buf), "\n\n") {
+		if strings.Contains(g, "verifharness/node.") && !strings.Contains(g, "sim.HarnessGoroutines") {
+			out = append(out, g)
+		}
+	}
+	return out
+}
+
 // WaitNoLibGoroutines polls until no library goroutine is left or the timeout expires; it returns the leftovers.
 func WaitNoLibGoroutines(timeout time.Duration) []string {
 	deadline := time.Now().Add(timeout)
